@@ -79,4 +79,21 @@ theorem no_rescale_scale_one (cs : List PeriodCache) (lk : Lik) (h : likelihood 
   cases h
   rfl
 
+/-! ### non-vacuity: a concrete two-variant run (different transition coefficients) succeeds, with rescaling -/
+
+def exSys (t : Rat) : Sys :=
+  { T := QMat.ofRows [[t]], P := QMat.ofRows [[1]], K := QMat.ofRows [[0]], Z := QMat.ofRows [[1]], H := QMat.ofRows [[1]],
+    D := QMat.ofRows [[0]] }
+
+def exPeriod (y : Rat) : PeriodIn :=
+  { obs := [0], y := QMat.ofRows [[y]], stdU := QMat.ofRows [[1]], stdW := QMat.ofRows [[1]], u0 := QMat.ofRows [[0]],
+    w0 := QMat.ofRows [[0]] }
+
+def exVariant (t : Rat) : VariantIn :=
+  { sys := exSys t, a := QMat.ofRows [[0]], Q := QMat.ofRows [[1]], periods := [exPeriod 1, exPeriod 2] }
+
+example : (match filterVariants id true [exVariant (1/2), exVariant (1/4)] with
+    | .ok outs => outs.length == 2 && (outs.map (fun o => o.lik.varScale)) != [1, 1]
+    | .error _ => false) = true := by decide +kernel
+
 end IrisVerif.KalmanVariants
